@@ -150,6 +150,29 @@ func (x *Exec) intrinsic(fr *Frame, st *State, ins ssa.Instruction, cc *ssa.Call
 		default:
 			panic(engErr("vs_modifies: unsupported target type %s", mi.X.Type()))
 		}
+	case "vs_done":
+		rf := x.realFrame(fr)
+		if rf == nil {
+			panic(engErr("vs_done outside a function body"))
+		}
+		nC, ok := cc.Args[0].(*ssa.Const)
+		if !ok {
+			panic(engErr("vs_done: argument must be a constant"))
+		}
+		h := nthLoopHeader(rf.fn, int(nC.Int64()))
+		if h == nil {
+			panic(engErr("vs_done: %s has no loop %d", rf.fn.Name(), nC.Int64()))
+		}
+		cell, _ := rangeIndexOf(h)
+		if cell == nil {
+			panic(engErr("vs_done: loop %d of %s is not a range over a slice/array", nC.Int64(), rf.fn.Name()))
+		}
+		cur, ok := st.cells[cellKey{rf.id, cell}]
+		if !ok {
+			fr.regs[res] = intLit(0)
+		} else {
+			fr.regs[res] = add(cur, intLit(1))
+		}
 	case "vs_visited":
 		// vs_visited(n, k): key k was already produced by the n-th range statement of the enclosing function
 		rf := x.realFrame(fr)
@@ -465,4 +488,37 @@ func (x *Exec) copyOp(fr *Frame, st *State, cc *ssa.CallCommon, res ssa.Value) {
 	if res != nil {
 		fr.regs[res] = n
 	}
+}
+
+// nthLoopHeader returns the header block of the n-th loop (source order).
+func nthLoopHeader(fn *ssa.Function, n int) *ssa.BasicBlock {
+	cfg := cfgOf(fn)
+	for b := range cfg.headers {
+		if loopOrdinal(fn, b) == n {
+			return b
+		}
+	}
+	return nil
+}
+
+// rangeIndexOf recognises the lowering of `for i, v := range slice`: the header
+// block "rangeindex.loop" increments a hidden cell and compares it with the
+// pre-evaluated length. Returns the cell and the length value.
+func rangeIndexOf(h *ssa.BasicBlock) (*ssa.Alloc, ssa.Value) {
+	if h.Comment != "rangeindex.loop" {
+		return nil, nil
+	}
+	var cell *ssa.Alloc
+	var ln ssa.Value
+	for _, ins := range h.Instrs {
+		switch v := ins.(type) {
+		case *ssa.UnOp:
+			if a, ok := v.X.(*ssa.Alloc); ok && a.Comment == "rangeindex" {
+				cell = a
+			}
+		case *ssa.BinOp:
+			ln = v.Y
+		}
+	}
+	return cell, ln
 }
